@@ -17,6 +17,50 @@ import sys, os, itertools
 sys.path.insert(0, os.path.dirname(os.path.abspath(__file__)))
 from vlib import *
 
+import shutil
+
+# Private mode (verification of seeded changes without touching /repo): C08_REPO=<scratch copy of /repo> makes
+# this check translate, build and run everything that depends on the repository from that copy, with a private
+# copy of the harness module, private binaries and a private compile of the lock-graph obligation.
+PRIV_REPO = os.environ.get('C08_REPO')
+PRIV = os.path.join(OUT, 'C08_priv')
+THE_REPO = PRIV_REPO or REPO
+H_DIR = os.path.join(PRIV, 'harness') if PRIV_REPO else HARNESS
+LOCK_COQ = os.path.join(PRIV, 'coq') if PRIV_REPO else COQ
+
+
+def setup_private():
+    if not PRIV_REPO:
+        return
+    shutil.rmtree(PRIV, ignore_errors=True)
+    os.makedirs(os.path.join(H_DIR, 'cmd'))
+    for d in ('cmd/h5ops', 'cmd/callgraph', 'fakehdf5'):
+        shutil.copytree(os.path.join(HARNESS, d), os.path.join(H_DIR, d))
+    gm = open(os.path.join(HARNESS, 'go.mod')).read().replace('=> /repo', '=> ' + os.path.abspath(PRIV_REPO))
+    open(os.path.join(H_DIR, 'go.mod'), 'w').write(gm)
+    hook = os.path.join(PRIV_REPO, 'io', 'verif_export.go')
+    if not os.path.exists(hook):
+        shutil.copy(os.path.join(VERIF, 'hooks', 'io', 'verif_export.go'), hook)
+    for d in ('IO', 'Gen'):
+        os.makedirs(os.path.join(LOCK_COQ, d))
+    for f in ('IO/LockCheck.v', 'IO/LockGraphCheck.v'):
+        shutil.copy(os.path.join(COQ, f), os.path.join(LOCK_COQ, f))
+
+
+def build_bins(cmds, tags='verif', race=False):
+    if not PRIV_REPO:
+        return build_harness(cmds, tags=tags, race=race)
+    sh('cp %s/go.sum %s/go.sum' % (THE_REPO, H_DIR))
+    for cn in cmds:
+        out = os.path.join(H_DIR, 'bin', cn + ('-race' if race else ''))
+        sh(['go', 'build'] + (['-tags', tags] if tags else []) + (['-race'] if race else []) + ['-o', out, './cmd/' + cn],
+           cwd=H_DIR, env=GOENV, timeout=1800)
+
+
+def bin_path(name):
+    return os.path.join(H_DIR, 'bin', name)
+
+
 TYPES = {'float64': 64, 'float32': 32, 'int32': 32, 'uint32': 32, 'int64': 64, 'uint64': 64, 'int': 64, 'uint': 64}
 WIDE = ('int', 'uint')      # Go types the binding maps to a narrower file type (known finding native-int-width)
 
@@ -352,13 +396,20 @@ def main():
     quick = c.tier == 'quick'
     rng = c.rng
     dev = os.environ.get('C08_DEV') == '1'          # development only: skip translator + proofs
+    setup_private()
     lock_info = None if dev else regenerate_lock_graph(c)
     if not dev:
         c.prove()
+        if PRIV_REPO and not c.proof_broken:
+            try:
+                sh('timeout 900 coqc -Q . OW IO/LockCheck.v && timeout 900 coqc -Q . OW Gen/LockGraph.v && '
+                   'timeout 900 coqc -Q . OW IO/LockGraphCheck.v', cwd=LOCK_COQ)
+            except BuildError as e:
+                c.proof_broken = ('coq: IO/LockGraphCheck.v (lock graph of %s)' % THE_REPO, e.output[-3000:])
+    build_driver(['c08'])
+    build_bins(['h5ops'])
     if c.proof_broken and 'LockGraph' in (c.proof_broken[0] + c.proof_broken[1]):
         lock_failure_search(c)
-    build_driver()
-    build_harness(['h5ops'])
     lines, metas = [], []
     # ---- exhaustive box for sliceSize / makeHyperslab
     box = (12, 12, 1, 5, 10)
@@ -389,7 +440,7 @@ def main():
             line, expect, spec, descr = gen_sequence(rng, ty, rng.randint(4, 14), stats, malformed)
             lines.append(line)
             metas.append(('seq', ty, expect, spec, descr, malformed))
-    impl = run_impl(lines, binary='h5ops')
+    impl = run_lines(bin_path('h5ops'), lines, env=GOENV)
     model = run_model(lines)
     n_ops = 0
     for i, (meta, li, lm) in enumerate(zip(metas, impl, model)):
@@ -479,8 +530,8 @@ def main():
     # ---- concurrency (thorough; TESTING)
     conc = None
     if not quick:
-        build_harness(['h5ops'], race=True)
-        p = subprocess.run([os.path.join(HARNESS, 'bin', 'h5ops-race'), '-conc', '16', '-rounds', '60'], stdout=subprocess.PIPE,
+        build_bins(['h5ops'], race=True)
+        p = subprocess.run([bin_path('h5ops-race'), '-conc', '16', '-rounds', '60'], stdout=subprocess.PIPE,
                            stderr=subprocess.STDOUT, text=True, env=GOENV, timeout=1200)
         conc = p.stdout.strip().split('\n')[-1]
         if p.returncode != 0 or 'DATA RACE' in p.stdout or not conc.startswith('CONC ok'):
@@ -519,20 +570,21 @@ def lock_failure_search(c):
     rejected = ''
     try:
         with _Lock():
-            sh('timeout 600 coqc -Q . OW Gen/LockGraph.v', cwd=COQ)
-            rejected = sh('timeout 600 coqc -Q %s OW -o %s %s' % (COQ, os.path.join(OUT, 'C08', 'lockdiag.vo'), diag), cwd=COQ)
+            if not PRIV_REPO:
+                sh('timeout 600 coqc -Q . OW Gen/LockGraph.v', cwd=COQ)
+            rejected = sh('timeout 600 coqc -Q %s OW -o %s %s' % (LOCK_COQ, os.path.join(OUT, 'C08', 'lockdiag.vo'), diag), cwd=LOCK_COQ)
     except BuildError as e:
         rejected = 'diagnostic failed: ' + e.output[-500:]
     names = re.findall(r'"([^"]+)"%string', rejected)
     log('lock checker rejects entry points:', names[:12])
     try:
-        build_harness(['h5ops'])
-        p = subprocess.run([os.path.join(HARNESS, 'bin', 'h5ops'), '-conc', '16', '-rounds', '60'], stdout=subprocess.PIPE,
+        p = subprocess.run([bin_path('h5ops'), '-conc', '16', '-rounds', '60'], stdout=subprocess.PIPE,
                            stderr=subprocess.STDOUT, text=True, env=GOENV, timeout=600)
         last = p.stdout.strip().split('\n')[-1] if p.stdout.strip() else ''
         if p.returncode != 0:
-            c.violation('lock_discipline_run.json', {'kind': 'lock discipline violated at run time (fake HDF5 overlap detector / torn reads)',
-                                                      'rejected_entry_points': names, 'run': 'harness/bin/h5ops -conc 16 -rounds 60',
+            c.violation('lock_discipline_run.json', {'kind': 'lock discipline violated at run time: HDF5 library calls of a writer overlap other calls '
+                                                             '(fake HDF5 overlap detector; 16+2 goroutines, file A under two spellings + file B)',
+                                                      'rejected_entry_points': names, 'run': bin_path('h5ops') + ' -conc 16 -rounds 60',
                                                       'output': p.stdout[-3000:], 'summary': last})
             return
     except (BuildError, subprocess.TimeoutExpired) as e:
@@ -543,17 +595,17 @@ def lock_failure_search(c):
 def regenerate_lock_graph(c):
     """Run the callgraph translator on /repo/io and rewrite coq/Gen/LockGraph.v when it changed."""
     try:
-        build_harness(['callgraph'], tags='')
+        build_bins(['callgraph'], tags='')
     except BuildError as e:
         c.proof_broken = ('callgraph translator does not build', e.output[-2000:])
         return {'error': 'build'}
-    p = subprocess.run([os.path.join(HARNESS, 'bin', 'callgraph'), '-dir', os.path.join(REPO, 'io'), '-repo', REPO,
-                        '-hdf5dir', os.path.join(HARNESS, 'fakehdf5')], stdout=subprocess.PIPE,
-                       stderr=subprocess.PIPE, text=True, timeout=120, env=GOENV, cwd=HARNESS)
+    p = subprocess.run([bin_path('callgraph'), '-dir', os.path.join(THE_REPO, 'io'), '-repo', THE_REPO,
+                        '-hdf5dir', os.path.join(H_DIR, 'fakehdf5')], stdout=subprocess.PIPE,
+                       stderr=subprocess.PIPE, text=True, timeout=120, env=GOENV, cwd=H_DIR)
     if p.returncode != 0:
         c.violation('callgraph_failed.json', {'kind': 'translator failed on /repo/io', 'stderr': p.stderr[-2000:]}, no_input=True)
         return {'error': p.stderr[-300:]}
-    dst = os.path.join(COQ, 'Gen', 'LockGraph.v')
+    dst = os.path.join(LOCK_COQ, 'Gen', 'LockGraph.v')
     with _Lock():
         old = open(dst).read() if os.path.exists(dst) else ''
         if old != p.stdout:
